@@ -16,6 +16,7 @@ mod params;
 mod quant;
 mod ribbon;
 mod util;
+mod utils;
 mod voice;
 
 use util::*;
@@ -63,6 +64,7 @@ fn main() {
                 "glide" => glide::record(driver, seed, thorough, &mut out),
                 "params" => params::record(driver, seed, thorough, &mut out),
                 "voice" => voice::record(driver, seed, thorough, &mut out),
+                "utils" => utils::record(driver, seed, thorough, &mut out),
                 m if m.starts_with("pacc") => pacc::record(m, driver, seed, thorough, &mut out),
                 _ => usage(),
             };
@@ -86,6 +88,7 @@ fn main() {
                 "glide" => glide::rerun(&lines, &mut out),
                 "params" => params::rerun(&lines, &mut out),
                 "voice" => voice::rerun(&lines, &mut out),
+                "utils" => utils::rerun(&lines, &mut out),
                 m if m.starts_with("pacc") => pacc::rerun(&lines, &mut out),
                 _ => usage(),
             }
